@@ -195,6 +195,25 @@ def lca_shape_fails(shape, full_triples=True, rng=None, names="unique", history=
             remap = {old: new for new, old in enumerate(keep)}
             nodes = [nodes[i] for i in keep]
             parent = [None if parent[i] is None else remap[parent[i]] for i in keep]
+    elif history == "regrafted-in-place":
+        LowestCommonAncestor(root)
+        if len(root.children) >= 2:
+            # the last child clade of the root is moved below the first child (same node objects, other ancestry), then a new structure is built
+            moved = root.children[-1]
+            target = root.children[0]
+            moved.detach()
+            target.add_child(moved)
+            order = []
+
+            def walk(nd):
+                order.append(nd)
+                for c in nd.children:
+                    walk(c)
+
+            walk(root)
+            idx0 = {id(nd): i for i, nd in enumerate(order)}
+            nodes = order
+            parent = [None if nd.up is None else idx0[id(nd.up)] for nd in order]
     n = len(nodes)
     anc = []
     for i in range(n):
@@ -310,11 +329,11 @@ def main(argv=None):
     res, sk = R.run_sharded(worker, items, 3000)
     rep.add_results("range-minimum (solver)", res, sk, exhaustive=True)
     shapes = [{"kind": "lca", "shape": s, "sample": (k == 5 and i == 3), "names": list(NAME_MODES),
-               "histories": ["subtrees-first", "rebuilt-after-prune"]} for k in range(1, nodes + 1) for i, s in enumerate(plane_trees(k))]
+               "histories": ["subtrees-first", "rebuilt-after-prune", "regrafted-in-place"]} for k in range(1, nodes + 1) for i, s in enumerate(plane_trees(k))]
     res, sk = R.run_sharded(worker, shapes, 3000)
     rep.add_results("ancestry (exhaustive structural enumeration)", res, sk, exhaustive=True)
     rnd = [{"kind": "lca", "shape": random_shape(rng, rng.randint(8, 40)), "full": False, "seed": rng.randrange(10 ** 6),
-            "names": ["unique", rng.choice(NAME_MODES[1:])], "histories": ["subtrees-first", "rebuilt-after-prune"]} for _ in range(nrand)]
+            "names": ["unique", rng.choice(NAME_MODES[1:])], "histories": ["subtrees-first", "rebuilt-after-prune", "regrafted-in-place"]} for _ in range(nrand)]
     res, sk = R.run_sharded(worker, rnd, 3000)
     rep.add_results("ancestry (seeded larger trees, sampled triples)", res, sk, exhaustive=False)
     import superrec2.utils.trees as T
@@ -327,7 +346,7 @@ def main(argv=None):
                   "_ilog2": "every value in [1, 2^24)",
                   "ancestry": f"every rooted plane tree of any arity with <= {nodes} nodes, every node, pair and triple, under four naming schemes (unique names; "
                               f"unnamed ancestors; one shared name; ancestors named like leaves - the queries are about node identity) and after two construction "
-                              f"histories (structures built on every proper subtree first; structure rebuilt after pruning a clade); "
+                              f"histories (structures built on every proper subtree first; structure rebuilt after pruning a clade; rebuilt after a clade was moved in place); "
                               f"{nrand} seeded trees with 8-40 nodes (all pairs, 300 sampled triples)"}
     rep.stubs = ["range_min_query.min -> ite model of the builtin (left-biased min(a,b) = ite(b<a, b, a)) for n > %d" % n_fork]
     rep.assumptions = ["the ancestry sub-claim has no numeric dimension: it is decided by exhaustive enumeration of the stated finite space, not by the solver"]
